@@ -124,12 +124,30 @@ def c08 : List String := Id.run do
       out := out ++ [s!"state that outlives a call is compiled into a real build (a result can then depend on earlier calls, not only on the logical inputs): {repr r}"]
   return out
 
+/-- C12: the two functions of an export arm must make the same call when `DIMS = a.len()`; the two forms of a safe wrapper
+must pass on the same inputs -/
+def c12 : List String := Id.run do
+  let mut out : List String := []
+  for m in allExportMacros do
+    for wf in bools do
+      if !exportArmPairOk m wf then
+        out := out ++ [s!"export macro {repr m} (arm with target features: {wf}): the xconst and the xany function do not forward the same call — xconst: {repr (exportArmOf m wf "xconst_name")} ; xany: {repr (exportArmOf m wf "xany_name")}"]
+  for m in allSafeMacros do
+    if !sameAsserts (safeArmOf m .xconst).asserts (safeArmOf m .xany).asserts then
+      out := out ++ [s!"safe macro {repr m}: with DIMS = a.len() the xconst form asserts {repr (safeArmOf m .xconst).asserts} but the xany form asserts {repr (safeArmOf m .xany).asserts} (a slice length one form checks and the other does not)"]
+    let sc := (safeArmOf m .xconst).slots.map (·.label)
+    let sa := (safeArmOf m .xany).slots.map (·.label)
+    if sc != sa then
+      out := out ++ [s!"safe macro {repr m}: the xconst form offers the dispatcher slots {repr sc}, the xany form {repr sa} — under a feature mask selecting a slot only one form has, the two forms run different backends"]
+  return out
+
 def main (args : List String) : IO UInt32 := do
   let ws := match args with
     | ["C08"] => c08
     | ["C09"] => c09 ++ availabilityWitnesses
     | ["C10"] => c10 ++ c10Wiring
     | ["C11"] => c11
+    | ["C12"] => c12
     | ["C14"] => c14
     | _ => []
   for w in ws.take 12 do
